@@ -692,10 +692,94 @@ func pinnedC04(t *mon.T) {
 	}
 }
 
+// hostileBytes: what arrives when the text is not text - a numeric prefix (or
+// none), then a run of one byte value (UTF-8 continuation bytes, lead bytes
+// without continuation, 0xFF, NUL, padding from a fixed-width Latin-1 field)
+// of every length up to 70 and a few long ones, or random high bytes, then an
+// optional numeric suffix. Invalid UTF-8 cannot come out of the grammar or of
+// single-byte mutations of it.
+func hostileBytes(r *rng.R) string {
+	pre := []string{"", "", "", "-", "+", "1", "12.5", "1e", "1E+", "NaN", "sNaN", "Inf", "-Infinity", "0.", "."}[r.Intn(15)]
+	var n int
+	switch r.Intn(8) {
+	case 0:
+		n = []int{128, 255, 256, 257, 1000, 4096, 70000}[r.Intn(7)]
+	default:
+		n = 1 + r.Intn(70)
+	}
+	run := make([]byte, n)
+	if r.Chance(1, 4) {
+		for i := range run {
+			run[i] = byte(0x80 + r.Intn(0x80))
+		}
+	} else {
+		b := []byte{0x80, 0x8f, 0xa0, 0xbf, 0xc0, 0xc2, 0xe2, 0xf0, 0xf4, 0xff, 0x00, 0x7f, ' ', 0xef}[r.Intn(14)]
+		for i := range run {
+			run[i] = b
+		}
+	}
+	suf := []string{"", "", "1", "e5", ".5", "E-3", "\xe2\x88\x92"}[r.Intn(7)]
+	return pre + string(run) + suf
+}
+
+func hostileBytesCase(t *mon.T) {
+	r := t.Rng
+	s := hostileBytes(r)
+	c := hostileContext(r)
+	over, ticks, pan := budgeted(20000000, func() {
+		msg := func(err error) {
+			if err != nil {
+				_ = err.Error()
+			}
+		}
+		d, _, err := apd.NewFromString(s)
+		msg(err)
+		if err == nil {
+			checkParsed(t, "NewFromString", s, d)
+		}
+		d, _, err = br.Context(c, randomTraps(r)).NewFromString(s)
+		msg(err)
+		if err == nil {
+			checkParsed(t, "Context.NewFromString", s, d)
+		}
+		var d1, d2, d3, d4, d5 apd.Decimal
+		_, _, err = d1.SetString(s)
+		msg(err)
+		_, _, err = br.Context(c, 0).SetString(&d5, s)
+		msg(err)
+		msg(d2.UnmarshalText([]byte(s)))
+		msg(d3.Scan(s))
+		msg(d4.Scan([]byte(s)))
+		var nd apd.NullDecimal
+		msg(nd.Scan(s))
+		msg(nd.Scan([]byte(s)))
+		var b1, b2, b3 apd.BigInt
+		b1.SetString(s, 10)
+		b1.SetString(s, 0)
+		msg(b2.UnmarshalText([]byte(s)))
+		msg(b3.UnmarshalJSON([]byte(s)))
+		_, err = fmt.Sscan(s, &b3)
+		msg(err)
+		_, err = fmt.Sscan(s, &d4)
+		msg(err)
+		_ = fmt.Sprintf(s, &d1)
+		_ = fmt.Sprintf(s, d1)
+	})
+	t.EvalN(16)
+	t.Count("hostile-bytes")
+	t.Nontrivial(fmt.Sprintf("hb|%d", t.Index))
+	if over != "" {
+		t.Fail("non-termination", map[string]interface{}{"entry": "parsers/hostile-bytes", "s": fmt.Sprintf("%q", clip(s)), "why": fmt.Sprintf("loop budget exceeded at site %q after %d ticks", over, ticks)})
+	}
+	if pan != nil {
+		t.Fail("panic", map[string]interface{}{"entry": "parsers/hostile-bytes", "s": fmt.Sprintf("%q", clip(s)), "panic": fmt.Sprint(pan)})
+	}
+}
+
 func runC04(r *mon.Run) {
 	r.Rule = "cases: one call (or short sequence) of a randomly chosen exported entry point - the 22 Context operations with hostile contexts " +
 		"(Precision 0, package-limit exponent range, any trap set, unknown rounding names, aliased destination), the parsers on grammar " +
-		"sentences / single-byte mutations / fragment concatenations / random bytes, the formatters with random fmt verbs and flags, " +
+		"sentences / single-byte mutations / fragment concatenations / random bytes / runs of 1..70 (and up to 70000) UTF-8 continuation bytes, lone lead bytes, 0xFF, NUL and other invalid UTF-8 behind a numeric prefix, the formatters with random fmt verbs and flags, " +
 		"conversions, Compose/Decompose, Condition/Rounder helpers, ErrDecimal, BigInt method sequences (negative values of every size " +
 		"class); a separate stratum places exponents at the +/-100000 limits and another uses precisions from 150 to 10000 digits (around the 2^k and constant-table boundaries), and a giant-operand stratum uses coefficients of 100001..140000 digits and exponents at opposite ends of the range (equal magnitudes that need aligning by more than 100000 places); an API-surface stratum enumerates the method sets of the exported types by reflection and drives every method that is not in the snapshot taken at the pinned commit with arguments built from its parameter types. Every call runs in a serial child process under recover() and " +
 		"a logical loop-iteration budget; a fatal runtime error is attributed through the journal and confirmed by re-running the case " +
@@ -708,9 +792,11 @@ func runC04(r *mon.Run) {
 	r.Isolated("high-precision", r.N(int64(len(highPrecisions))*10, int64(len(highPrecisions))*100), 16, 6000*time.Second, highPrecisionCase)
 	r.Isolated("giant-operands", r.N(64, 3200), 16, 6000*time.Second, giantCase)
 	r.Isolated("api-surface", r.N(3000, 100000), 16, 6000*time.Second, apiSurfaceCase)
+	r.Isolated("hostile-bytes", r.N(6000, 600000), 16, 3000*time.Second, hostileBytesCase)
 	if r.IsChild() {
 		return
 	}
+	r.Require("hostile-bytes", 5000)
 	r.Require("giant-operands", 60)
 	r.Require("api-surface", 2000)
 	for _, op := range []string{"ln", "log10", "exp", "pow", "sqrt", "cbrt", "add", "mul", "quo", "round"} {
